@@ -208,12 +208,25 @@ func (s *sysB) recorded() (map[string]int32, int64, int32) {
 func instName(i int) string { return fmt.Sprintf("gw%d", i) }
 
 func specB(typ proxyv1alpha1.FlowControlSchemaType, k int, base int32) xstate.Spec {
+	return specBOn(typ, k, base, "local")
+}
+
+// specBOn: store "k8s-writeback" is the API-backed store in write-back mode (the limiter binary's default for
+// --limit-store=k8s) with the periodic flush as one more event
+func specBOn(typ proxyv1alpha1.FlowControlSchemaType, k int, base int32, store string) xstate.Spec {
 	loads := []string{"idle", "half", "full", "over"}
+	name := fmt.Sprintf("reports-%s-k%d-limit%d", typ, k, base)
+	if store != "local" {
+		name += "-" + store
+	}
 	return xstate.Spec{
-		Name: fmt.Sprintf("reports-%s-k%d-limit%d", typ, k, base),
+		Name: name,
 		New: func() interface{} {
 			vsched.InlineGo = true
 			s := &sysB{rig: limrig.New(1, "local"), typ: typ, limit: base, base: base, gb: base * 2, inst: make([]inst, k)}
+			if store == "k8s-writeback" {
+				s.rig = limrig.NewWithSyncPeriod(1, "k8s", 24*time.Hour)
+			}
 			s.rig.Gain(0)
 			if err := s.rig.ApplyCluster(s.cluster()); err != nil {
 				panic(err)
@@ -228,6 +241,9 @@ func specB(typ proxyv1alpha1.FlowControlSchemaType, k int, base int32) xstate.Sp
 				}
 			}
 			evs = append(evs, "limit down", "limit up")
+			if store != "local" {
+				evs = append(evs, "flush")
+			}
 			if typ == TB {
 				evs = append(evs, "burst halved", "burst restored") // the global burst alone changes: qps, schema set and type stay
 			}
@@ -240,6 +256,13 @@ func specB(typ proxyv1alpha1.FlowControlSchemaType, k int, base int32) xstate.Sp
 			s := si.(*sysB)
 			f := strings.Fields(e)
 			switch f[0] {
+			case "flush":
+				if fl, ok := s.rig.H.Store(0).(interface{ Flush() error }); ok {
+					if err := fl.Flush(); err != nil {
+						return fmt.Errorf("flush-failed: %v", err)
+					}
+				}
+				return nil
 			case "burst":
 				if f[1] == "halved" {
 					s.gb = s.limit
@@ -499,7 +522,7 @@ func main() {
 			specs = append(specs, specB(typ, 2, base))
 		}
 	}
-	specs = append(specs, specB(MIF, 3, 100), specB(MIF, 3, 10))
+	specs = append(specs, specB(MIF, 3, 100), specB(MIF, 3, 10), specBOn(MIF, 2, 10, "k8s-writeback"), specBOn(TB, 2, 100, "k8s-writeback"))
 	if c.ReplayFile() != "" {
 		xstate.ReplayIfAsked(c, specs)
 		xa.ReplayIfAsked(c, harnesses(c, 0))
